@@ -169,6 +169,10 @@ func runSync(name string, args []string, out, errOut io.Writer) error {
 		return err
 	}
 
+	pendingRemoval := map[string]bool{}
+	for _, action := range actions {
+		pendingRemoval[action.Name] = true
+	}
 	if err := indexRepositories(repositories, gitindex.Options{
 		BuildOptions:       config.buildOptions,
 		Branches:           splitBranches(config.branches),
@@ -177,7 +181,7 @@ func runSync(name string, args []string, out, errOut io.Writer) error {
 		Submodules:         config.submodules,
 		Incremental:        true,
 		DryRun:             !config.force,
-	}, out); err != nil {
+	}, pendingRemoval, out); err != nil {
 		return err
 	}
 	if !config.force {
